@@ -53,7 +53,7 @@ def run():
     from . import index_exprs
     jobs = [('IndexExprs.lean', index_exprs.generate)]
     for mod in ('constants', 'rotmodes', 'loops', 'colour', 'caches', 'codec', 'effects', 'wavekernels', 'geometry', 'callsites',
-                'samplers', 'quantisers', 'slicers', 'foveation', 'losses', 'pipelines', 'gradbreakers'):
+                'samplers', 'quantisers', 'slicers', 'foveation', 'losses', 'pipelines', 'gradbreakers', 'colourtensors'):
         try:
             m = __import__('harness.translate.' + mod, fromlist=['generate'])
             jobs.append((m.FILE, m.generate))
